@@ -75,9 +75,9 @@ fn main()
         "replay" =>
         {
             let out = arg(&args, "--out", "trace.ndjson");
-            let (lines, n, notenabled) = drv_replay::replay_file(&arg(&args, "--in", "behaviours.ndjson"), &arg(&args, "--tag", "g"), arg(&args, "--serial-ref", "1") == "1");
+            let (lines, n, notenabled, snaps) = drv_replay::replay_file(&arg(&args, "--in", "behaviours.ndjson"), &arg(&args, "--tag", "g"), arg(&args, "--serial-ref", "1") == "1", arg(&args, "--crash-last", "0") == "1");
             run::write_lines(&out, &lines);
-            println!("{}", serde_json::json!({"scenarios" : n, "events" : lines.len(), "picks_not_enabled" : notenabled, "counts" : run::counts(&lines)}));
+            println!("{}", serde_json::json!({"scenarios" : n, "events" : lines.len(), "picks_not_enabled" : notenabled, "snapshots" : snaps, "counts" : run::counts(&lines)}));
         },
         _ => { eprintln!("usage: rvh selftest|random|crash ..."); std::process::exit(2); },
     }
